@@ -142,7 +142,8 @@ func RunModelT(bin string, sc *Scenario, impl *ImplRun, checkSizes bool, transcr
 			if op.M.Ref != nil {
 				id = op.M.Ref.Lit
 			}
-			op.M = op.M.resolved(id, sid, namer.ID)
+			rk := op.Realm + 1000*incarnation[op.Realm]
+			op.M = op.M.resolved(id, sid, func(name string) string { return namer.IDIn(name, rk) })
 		}
 		if op.Kind == "join" && r.Failed == "" {
 			joined[op.Sess] = op.Realm
@@ -165,7 +166,10 @@ func RunModelT(bin string, sc *Scenario, impl *ImplRun, checkSizes bool, transcr
 			if err != nil {
 				return nil, nil, nil, err
 			}
-			nm := &PubNamer{toName: map[string]string{}, toID: map[string]string{}, n: namer.n}
+			nm := &PubNamer{toName: map[string]string{}, toID: map[string]string{}, toRealm: map[string]string{}, n: namer.n}
+			for k, v := range namer.toRealm {
+				nm.toRealm[k] = v
+			}
 			for k, v := range namer.toName {
 				nm.toName[k] = v
 			}
